@@ -3,6 +3,7 @@ import XjsModel.Props.C10
 import XjsModel.Proofs.ParserWfPass
 import XjsModel.Proofs.ParserCompletePass
 import XjsModel.Proofs.PrinterOk
+import XjsModel.Proofs.ParserTotalBuilder
 /-
   C11 — Parsing is total and its result obeys the error contract.
 
@@ -20,10 +21,15 @@ import XjsModel.Proofs.PrinterOk
     (e) whenever no error is reported the tree is complete (every mandatory child present, recursively:
         `complete_mutual`) and a complete tree compiles in EVERY configuration without dereferencing a nil child
         (`compile_ok`, structural induction over the printers).
-  Not proved in Lean: (a) termination of the parser for every input. The model's parser is a least fixed point
-  (`partial_fixpoint`), all theorems here are of the form "whenever the parse returns …"; that it always returns,
-  and never panics, is decided by the correspondence run (diverging / panicking ops are compared) and the
-  error-contract oracle on raw bytes and token mutations in all four modes.
+    (a) TERMINATION: on every byte string, in all four modes, with any pass-through interceptor lists and any
+        operator tables a builder can produce (no operator on the EOF token, infix levels ≥ LOWEST), every function
+        of the parser returns (`Total.all`: induction on the number of tokens left, the 22 functions of the mutual
+        least-fixed-point block ordered by their same-size calls; `parseProgram_total`). The measure argument is the
+        one that fails when a token gets a binding power without an infix parse function (the Pratt loop would then
+        spin without consuming): `TablesOk`, re-checked for the tables extracted from /repo (TableObligations).
+  Not expressible in the model: panics (the model has no partial operation; nil dereferences are covered by (c), (e));
+  that is decided by the correspondence run (panicking ops are compared) and the error-contract oracle on raw bytes
+  and token mutations in all four modes.
 -/
 namespace Xjs.C11
 open Xjs
@@ -137,6 +143,36 @@ theorem error_free_tree_compiles (cfg : PCfg) (toks : List Token) (r : ParseResu
     (compile ccfg r.prog).ok = true :=
   compile_ok ccfg r.prog (error_free_tree_is_complete cfg toks r h hok)
 
+/-- (a) PARSING TERMINATES, for every byte string: all four modes, any pass-through interceptor lists -/
+theorem parsing_terminates (tolerant smart : Bool) (si : List SI) (ei : List EI) (src : Bytes) :
+    ∃ r, parseSource { tolerant := tolerant, smart := smart, stmtI := si, exprI := ei } src = some r := by
+  obtain ⟨ts, e, h1, h2, _⟩ := Xjs.C10.lexAll_total src
+  exact Total.parseProgram_total (Total.tablesOk_base tolerant smart si ei) (lexAll src) ⟨ts, e, h1, h2⟩
+
+/-- (a) … and with the operator tables of any builder: custom prefix / infix / postfix operators -/
+theorem parsing_terminates_with_custom_operators (b : Builder) (si : List SI) (ei : List EI) (src : Bytes)
+    (hp : ∀ t ∈ b.prefixOps, t ≠ .eof) (hi : ∀ op ∈ b.infixOps, op.1 ≠ .eof ∧ 1 ≤ op.2) (hq : ∀ t ∈ b.postfixOps, t ≠ .eof) :
+    ∃ r, parseSource (b.config si ei) src = some r := by
+  obtain ⟨ts, e, h1, h2, _⟩ := Xjs.C10.lexAll_total src
+  exact Total.parseProgram_total (Total.tablesOk_builder b si ei hp hi hq) (lexAll src) ⟨ts, e, h1, h2⟩
+
+/-- the whole contract in one statement: for every byte string and mode there IS a result, and it obeys (b)–(e) -/
+theorem parse_total_and_contract (tolerant smart : Bool) (si : List SI) (ei : List EI) (src : Bytes) :
+    ∃ r, parseSource { tolerant := tolerant, smart := smart, stmtI := si, exprI := ei } src = some r ∧
+      (r.hasErr = true ↔ r.errors ≠ []) ∧ r.prog.wf = true ∧ (∀ e ∈ r.errors, ∃ t ∈ lexAll src, e.range = t.range) ∧
+      (r.errors = [] → r.prog.complete = true ∧ ∀ ccfg : CompCfg, (compile ccfg r.prog).ok = true) := by
+  obtain ⟨r, h⟩ := parsing_terminates tolerant smart si ei src
+  exact ⟨r, h, error_value_iff_errors _ _ r h, no_nil_in_statement_lists _ _ r h,
+    error_ranges_are_token_ranges_src _ src r h,
+    fun hok => ⟨error_free_tree_is_complete _ _ r h hok, fun c => error_free_tree_compiles _ _ r h hok c⟩⟩
+
+/-- the hypothesis of termination is sharp: a token with a binding power but no infix parse function makes the
+    Pratt loop spin (the model's least fixed point is undefined there — what a seeded table slip produces) -/
+example : ¬ Total.TablesOk { precs := (TokType.ident, 5) :: basePrecedences } := by
+  intro h
+  have := h.infix_of_prec .ident (by decide)
+  revert this; decide
+
 /-! Non-vacuity -/
 example : ∃ r, parseProgram {} [dummyTok] = some r ∧ r.hasErr = false := by
   have h : parseProgram {} [dummyTok] =
@@ -155,3 +191,6 @@ end Xjs.C11
 #print axioms Xjs.C11.no_nil_in_statement_lists
 #print axioms Xjs.C11.error_free_tree_is_complete
 #print axioms Xjs.C11.error_free_tree_compiles
+#print axioms Xjs.C11.parsing_terminates
+#print axioms Xjs.C11.parsing_terminates_with_custom_operators
+#print axioms Xjs.C11.parse_total_and_contract
